@@ -125,7 +125,7 @@ func otlpExpected(w *workload, c otlpCfg) []rec {
 						add(s.Name+".histogram", otlpTags(s.Tags, s.Source, c.ResourceKeys, "le:"+fmtBound(b)), float64(cnt), "timer.histogram")
 					}
 					for _, suffix := range allTimerSubs() {
-						out = append(out, rec{Name: s.Name + "." + suffix, Tags: tg, Class: gsdSummary, Ser: i, Forbidden: true})
+						out = append(out, rec{Name: s.Name + "." + suffix, Tags: tg, Class: gsdClass(s), Ser: i, Forbidden: true})
 					}
 					continue
 				}
